@@ -14,6 +14,8 @@ RULE = ("hierarchies of depth 1-4 with up to three bases per level, diamonds (th
         "conversion checked; distinct by case text")
 ASSUMPTIONS = ["that a forwarding call lands on the sub-object at the base's offset follows from Rust's field projection and C01; it is executed only in the thorough tier"]
 
+HARNESS_ENV = {'PXHARNESS_TEXT': '1'}
+
 def generate(rng, tier):
     n = 250 if tier == 'quick' else 5000
     o = gen.Opts(p_base=0.8, p_vftable=0.45, p_impl=0.7, p_enum=0.0, p_backend=0.0, p_extern_val=0.0, p_extern_type=0.1,
@@ -26,7 +28,8 @@ def generate(rng, tier):
         for p, nd in list(all_nodes(c)):
             if tag(nd) == 'fn' and any(tag(a) == 'af' and a[1] == 'address' for a in nd[3][1:]) and rng.random() < 0.5:
                 pass
-    return out + clash_worlds(rng, n // 3, o)
+    from .. import o4exec
+    return out + clash_worlds(rng, n // 3, o) + o4exec.exec_worlds(rng, 10 if tier == 'quick' else 200, **dict(p_base=0.8, p_impl=0.6, p_vftable=0.5, max_items=6))
 
 def clash_worlds(rng, n, o):
     out = []
@@ -203,3 +206,9 @@ def judge(c, impl, model):
         info['nontrivial'] = True
     count(info, 'members-checked:%s' % ('0' if not checked else '1-4' if checked < 5 else '5-19' if checked < 20 else '20+'))
     return fs, info
+
+def judge_all(cases, impl, model, tier):
+    # O4 execution: the worlds whose id starts with 'ex' are compiled for the host and their wrappers / accessors RUN
+    from .. import o4exec
+    fs, info = o4exec.judge_exec(ID, cases, impl, tier)
+    return fs, info, []
